@@ -20,7 +20,7 @@ META = {
         "SolidBodyNearlyIncompressible at a settled state (state.u = u, J = v/V, p = bulk (J-1), reached by the item's own update called twice)",
         "contact: one slave point, every feasible sign pattern away from the switching point is a path",
     ],
-    "outside": ["other meshes (no induction over mesh size)", "materials violating the abstract assumption", "apply= callbacks", "IEEE rounding"],
+    "outside": ["mixed (u, p, J) containers on hex8 for both wrappers and on axisymmetric fields with ThreeFieldVariation (tried in the thorough tier: not decided within 90 min per case)", "other meshes (no induction over mesh size)", "materials violating the abstract assumption", "apply= callbacks", "IEEE rounding"],
     "assumptions": ["det F > 0 is not needed for the identities with an abstract material (they are polynomial in u)"],
 }
 
@@ -406,8 +406,9 @@ def cases(tier):
     for w in ("ThreeFieldVariation", "NearlyIncompressible"):
         if thorough or w == "NearlyIncompressible":
             out.append(("mixed", case_mixed, {"family": "quad4", "wrapper": w, "kind": "PlaneStrain"}))
-        if thorough:
-            out.append(("mixed", case_mixed, {"family": "hex8", "wrapper": w, "kind": "Field"}))
+        if thorough and w == "NearlyIncompressible":
+            # (tried and not decided within the 90-minute case budget: hex8 mixed containers for both wrappers, and the axisymmetric
+            # ThreeFieldVariation container (Q-tol undecided); they are not part of the claim)
             out.append(("mixed", case_mixed, {"family": "quad4axi", "wrapper": w, "kind": "Axisymmetric"}))
     out.append(("nearly_incompressible", case_nearly_incompressible, {"family": "quad4", "kind": "PlaneStrain", "abstract_area": True}))
     if thorough:
